@@ -6,6 +6,8 @@ CONSTANTS
   MaxTape = 100000
   Chunks = {"c1", "c2", "c3"}
   AttrVals = {1}
+  Handles = {}
+  HandleFlags = {}
   MaxContent = 100
   RS = 20
   Shape <- MCShape
